@@ -1,6 +1,6 @@
 """Check context: Lean leg (L), correspondence leg (K), property-predicate leg (P),
 classification (known finding / violation), evidence and replay files."""
-import json, os, random, subprocess, sys, time, hashlib
+import json, os, random, re, subprocess, sys, time, hashlib
 from . import build
 
 VERIF = build.VERIF
@@ -178,6 +178,15 @@ class Ctx:
         self._distinct.add(key)
 
     # ------------------------------------------------------------ classification
+    def module_not_built(self, m, err):
+        """a module that asn1c rejects or that does not compile: for a randomly generated module that is C10's subject (counted),
+        for a directed (fixed) module the directed cases would be lost silently, so the check is reported broken"""
+        name = m["name"] if isinstance(m, dict) else str(m)
+        self.cov.setdefault("modules_not_built", []).append(name)
+        if not re.fullmatch(r"[A-Z]\d+", name):
+            msg = (getattr(err, "out", None) or str(err)).strip().split("\n")[0][:300]
+            self.broken.append({"kind": "harness", "name": "directed module does not build", "module": name, "msg": msg})
+
     def match_finding(self, pred):
         """pred: f(finding dict) -> bool.  Prints KNOWN-FINDING once per matched entry."""
         for f in self.findings:
